@@ -59,7 +59,8 @@ class Script:
     p_none, p_resume, p_resume_bad, p_ckpt, p_newcfg : suggest kinds, polls : after this many polls the extra
     criterion fires and the world drains (every active worker ends), dt : clock increment scale,
     ts_jitter : spread of worker time stamps (interleaving of results of different trials),
-    metric_grid : metric values are k/4 with k in 0..metric_grid."""
+    metric_grid : metric values are k/4 with k in 0..metric_grid, max_failed_total : cap on the number of jobs that
+    fail (outside the drain phase)."""
 
     STREAMS = ("world", "ord", "dec", "sug", "clk", "ext")
 
@@ -71,6 +72,7 @@ class Script:
         self.backend = None  # set by ScriptedBackend (public view of paused trials for 'resume')
         self._clock = 0.0
         self._ts = 0
+        self._n_failed = 0
         self.drain = False
 
     @classmethod
@@ -105,6 +107,11 @@ class Script:
                 d = c + p.get("p_stopping", 0.03)
                 status = ("Completed" if u < a else "Failed" if u < b else "Stopped" if u < c
                           else "Stopping" if u < d else "InProgress")
+                if status == "Failed" and p.get("max_failed_total") is not None:
+                    if self._n_failed >= p["max_failed_total"]:
+                        status = "InProgress"   # profile: at most that many jobs fail in this run
+                    else:
+                        self._n_failed += 1
             k = r.randint(0, p.get("max_reports", 3))
             if r.random() < p.get("p_silent", 0.15):
                 k = 0
@@ -215,6 +222,8 @@ def make_backend_class():
             self.stop_all_called = False
             self.last_resume_error = None
             self.occupancy_checks = []  # (occupying ids, call) at every backend call, for the checker
+            self.in_poll = False
+            self.failed_in_poll = []    # (trial, poll number): the scripted job ended Failed, seen by that poll
 
         # ---- worker side (abstract methods of TrialBackend) -------------------------------
         def _schedule(self, trial_id, config):
@@ -239,6 +248,9 @@ def make_backend_class():
                                              ST_WORKER_COST: cost, ST_WORKER_TIME: float(idx + 1),
                                              ST_WORKER_TIMESTAMP: ts})
                     w["status"] = status
+                    if status == "Failed" and self.in_poll:
+                        # ground truth: this job ended Failed and a poll of the tuning loop is looking at it
+                        self.failed_in_poll.append((t, self.n_polls))
                 res.append(TrialResult(trial_id=t, config=w["config"], creation_time=w["created"],
                                        metrics=list(w["metrics"]), status=_status_const(w["status"])))
             return res
@@ -328,7 +340,11 @@ def make_backend_class():
             order = self.script.order(list(trial_ids))
             self.n_polls += 1
             self._call(("b_fetch", list(order)))
-            return super().fetch_status_results(order)
+            self.in_poll = True
+            try:
+                return super().fetch_status_results(order)
+            finally:
+                self.in_poll = False
 
         def stop_all(self):
             self._call(("b_stop_all",))
@@ -576,6 +592,7 @@ def run_tuner(params, script, scheduler_factory=None, hard_limit=400):
     criterion = RecordingCriterion(StoppingCriterion(**kw), script, log, fake_time, backend, params["max_failures"])
     outcome = ["normal"]
     aborted = False
+    replaced_exception = False
     sink = io.StringIO()
     old_folder = os.environ.get("SYNETUNE_FOLDER")
     try:
@@ -605,6 +622,8 @@ def run_tuner(params, script, scheduler_factory=None, hard_limit=400):
                     # both ValueErrors of tuner.py read the trial's stdout right before raising
                     outcome = ["failure_limit" if backend.last_stdout_after_stop_all else "no_metrics",
                                backend.last_stdout_trial]
+                    # the failure-limit error of the finally block replaces an exception that was already in flight
+                    replaced_exception = e.__context__ is not None
                 else:
                     outcome = ["exception", type(e).__name__, where, str(e)[:200]]
             status = tuner.tuning_status
@@ -622,7 +641,8 @@ def run_tuner(params, script, scheduler_factory=None, hard_limit=400):
     return dict(trace=trace, outcome=outcome, smap=smap, workers=backend.worker_statuses(), counters=counters,
                 occupancy=backend.occupancy_checks, iterations=recorder.iterations, aborted=aborted,
                 n_trials=len(backend.trial_ids), copies=backend.copies, at_exit=recorder.at_exit,
-                criterion_obs=criterion.observations)
+                criterion_obs=criterion.observations,
+                failed_in_poll=backend.failed_in_poll, replaced_exception=replaced_exception)
 
 
 # ------------------------------------------------------------------------------------------
